@@ -14,6 +14,7 @@ import (
 	"math/rand"
 	"net"
 	"os"
+	"time"
 
 	"verif/harness/hcx"
 	"verif/harness/script"
@@ -271,6 +272,13 @@ func runScript(rnd *rand.Rand, c scriptCase, cutAt int) {
 				return
 			}
 			run.Count("timeouts_returned", 1)
+			// a caller whose read deadline has passed sets a new one before it reads again (net/http does; on a real
+			// socket every read fails until it does), sometimes by clearing it
+			if calls%2 == 0 {
+				hc.SetReadDeadline(time.Now().Add(time.Hour))
+			} else {
+				hc.SetReadDeadline(time.Time{})
+			}
 			if n == 0 {
 				// (c) promptness: the call went back to the network; every completely arrived frame must be out
 				avail := 0
